@@ -30,6 +30,27 @@ Theorem C05_movers :
 Proof. repeat split; [apply reshape_movement | apply permute_movement | apply slice0_movement]. Qed.
 Print Assumptions C05_movers.
 
+(* PROGRAMS of data-movement ops (the property's quantifier: sequences of any depth).  Every op quanto forwards to
+   the payload of a per-tensor tensor (view / reshape, transpose / permute, select, slice, unsqueeze, expand, split
+   chunks) is a gather - result elements are operand elements at indices computed from the operand's shape only -,
+   gathers are movements, movements compose: for EVERY sequence [ops] of movements, of any length, any number type,
+   any shapes, running it on the payload then dequantizing equals running it on the dequantized tensor; raising is
+   preserved too (both sides are the same [res]).  cat / stack of payloads sharing their scale likewise. *)
+From QV Require Import Proofs.QOpsMoves.
+Theorem C05_program_exact : forall (F : Type) (NF : Num F) (ops : list mover) (s : F) (data : tensor F),
+  Forall movement ops ->
+  run ops F (n_mul s f0) (deq_scalar s data) = (moved <- run ops F f0 data ;; Ok (deq_scalar s moved)).
+Proof. intros F NF. exact (@program_commutes_with_dequantize F NF). Qed.
+Print Assumptions C05_program_exact.
+Theorem C05_gathers_are_movements :
+  (forall plan, movement (gather plan)) /\ (forall target, movement (t_expand target)) /\
+  (forall i, movement (t_select0 i)) /\ movement t_unsqueeze0.
+Proof. repeat split; [apply gather_movement | apply expand_movement | apply select0_movement | apply unsqueeze0_movement]. Qed.
+Theorem C05_cat_exact : forall (F : Type) (NF : Num F) (s : F) (payloads : list (tensor F)),
+  t_cat0 (map (deq_scalar s) payloads) = (r <- t_cat0 payloads ;; Ok (deq_scalar s r)).
+Proof. intros F NF. exact (@cat0_commutes_with_dequantize F NF). Qed.
+Print Assumptions C05_cat_exact.
+
 Example C05_classes : class_of "split" = Some CMove /\ class_of "mul" = Some CRescale /\ class_of "_softmax" = Some CRequant.
 Proof. repeat split. Qed.
 
